@@ -807,6 +807,12 @@ func (vfs *OrefaFS) Rename(oldname, newname string) error {
 
 	if (oChild.mode.IsDir() && nChildOk) || (!oChild.mode.IsDir() && nChildOk && nChild.mode.IsDir()) {
 		err := vfs.err.FileExists
+
+		// A directory can't replace a file.
+		if !nChild.mode.IsDir() {
+			err = vfs.err.NotADirectory
+		}
+
 		if vfs.OSType() == avfs.OsWindows {
 			err = avfs.ErrWinAccessDenied
 		}
